@@ -58,7 +58,11 @@ Definition exec_int_bop (n : Z) (mk : Z -> value) (o : binop) (a b : Z) : outcom
   | And | Or => Crash EmitAssert   (* no such opcode: && || are jumps *)
   end.
 
-(* floating handlers; vm_execute_op_div_type tests `b == 0` for float and double too *)
+(* floating handlers; vm_execute_op_div_type tests `b == 0` for float and double too.  The
+   macro computes (b == -1) ? -a : a / b also at the floating types; IEEE division by -1.0 is
+   exact and equals -a (zeros, infinities included; a NaN stays a NaN and SpecFloat has a single
+   NaN), so the handler is modelled as plain division — tied by the correspondence runs, whose
+   corner set contains -1.0 *)
 Definition exec_flt_bop (f : fmt) (mk : Z -> value) (o : binop) (a b : Z) : outcome :=
   match o with
   | Add => Val (mk (fadd f a b))
